@@ -113,6 +113,11 @@ fn candidates(l: &Log, full: bool) -> Vec<Op> {
                 None => { c.push(MaybeAppend(idx, 0, 0, vec![])); c.push(MaybeAppend(idx, lt, v.last + 3, vec![e3(idx + 1, lt.max(1))])); }
             }
         }
+        // huge indexes: slice start out of range, idx + 1 overflow, idx + len overflow
+        c.push(MaybeAppend(v.last + 1, 0, 0, vec![(u64::MAX - 1, 2, 0)]));
+        c.push(MaybeAppend(u64::MAX, 0, 0, vec![]));
+        c.push(MaybeAppend(u64::MAX, 0, 0, vec![e3(v.last + 1, lt.max(1))]));
+        c.push(MaybeAppend(u64::MAX, 0, 0, vec![(u64::MAX, 0, 0)]));
         // non-contiguous entries (conflict index below idx+1 -> arithmetic underflow)
         if v.last > v.c { c.push(MaybeAppend(v.last, lt, 0, vec![e3(v.last, cap3(lt + 1))])); }
         for i in dedup(vec![v.c, v.c + 1, v.last, v.last + 1]) { c.push(CommitTo(i)); }
